@@ -73,19 +73,22 @@ theorem contains_map_any (x : String) (f : String → String) (l : List String) 
 /-- **rule_inherited** -/
 theorem rule_inherited (norm : String → String) (hn : NormOK norm) (m : Method) (ha : AgreesI norm m = true) :
     ihRun Cfg.code norm m.evs = inheritedSpec norm m := by
-  have hacts : m.evs.map (ihAct Cfg.code norm) = .enter m.head.node.ident m.head.node.sel :: m.body.map (specIAct norm) := by
-    simp only [Method.evs, List.map_cons, ihAct_method Cfg.code norm m.hhead]
+  have hacts : m.evs.map (ihAct Cfg.code norm) = .enter m.head.node.ident m.head.node.sel :: iacts norm m := by
+    simp only [Method.evs, List.map_cons, ihAct_method Cfg.code norm m.hhead, iacts]
     congr 1
     apply List.map_congr_left
     intro e he
     simp only [AgreesI, List.all_eq_true, beq_iff_eq] at ha
     rw [ihAct_code]
     exact ha e he
-  have hne : noEnterI (m.body.map (specIAct norm)) = true := by
-    simp only [noEnterI, List.all_map, List.all_eq_true, Function.comp]
+  have hne : noEnterI (iacts norm m) = true := by
+    simp only [noEnterI, iacts, List.all_map, List.all_eq_true, Function.comp]
     intro e he
-    have := specIAct_not_enter norm (m.hbody e he)
-    cases h : specIAct norm e <;> simp_all
+    have hs := specIAct_not_enter norm (m.hbody e he)
+    by_cases ho : own m e = true
+    · rw [if_pos ho]
+      cases h : specIAct norm e <;> simp_all
+    · rw [if_neg ho]
   have hnames : E8.inheritedMethods = inheritedNames.map norm := by
     rw [tables_match.2.1]
     apply List.map_congr_left
@@ -96,8 +99,8 @@ theorem rule_inherited (norm : String → String) (hn : NormOK norm) (m : Method
   unfold ihRun
   rw [hacts, ih_spec Cfg.code norm _ _ _ hne]
   simp only [keyOf, code_up.2.2.1, ↓reduceIte, hnames, contains_map_any, inheritedSpec]
-  have : (m.body.map (specIAct norm)).any (satisfies Cfg.code norm m.head.node.ident) =
-      (m.body.map (specIAct norm)).any (callsInherited norm m.head.node.ident) := by
+  have : (iacts norm m).any (satisfies Cfg.code norm m.head.node.ident) =
+      (iacts norm m).any (callsInherited norm m.head.node.ident) := by
     have : satisfies Cfg.code norm m.head.node.ident = callsInherited norm m.head.node.ident := funext hsat
     rw [this]
   rw [this]
@@ -125,7 +128,7 @@ theorem rule_unpurged (norm : String → String) (m : Method)
     (hw : WellDeclaredP norm m = true) (ha : AgreesP norm m = true) :
     unpurgedModel norm m = unpurgedSpec norm m := by
   have hcong : (tracker boolFlag Cfg.fixed.up norm).run (.enter :: m.body.map (upAct Cfg.fixed norm)) =
-      (tracker boolFlag Cfg.fixed.up norm).run (.enter :: m.body.map (specPAct norm)) := by
+      (tracker boolFlag Cfg.fixed.up norm).run (.enter :: pacts norm m) := by
     apply tracker_congr boolFlag Cfg.fixed.up norm rfl rfl
     intro e he
     simp only [AgreesP, List.all_eq_true] at ha
@@ -135,16 +138,16 @@ theorem rule_unpurged (norm : String → String) (m : Method)
   have hne : noEnter (pacts norm m) = true := by
     simp only [noEnter, pacts, List.all_map, List.all_eq_true, Function.comp, bne_iff_ne]
     intro e he
-    exact specPAct_not_enter norm (m.hbody e he)
+    split
+    · exact specPAct_not_enter norm (m.hbody e he)
+    · simp
   have := tracker_spec boolFlag boolFlag_lawful Cfg.fixed.up norm rfl rfl (pacts norm m) hne hw
   rw [unpurgedModel, upRun_code]
   unfold upRun upMachine
-  rw [hacts, hcong]
-  simp only [pacts] at this
-  rw [this]
-  simp only [trackSpec, unpurgedSpec, byteArrays, purged, pacts]
-  have e := filterMap_ite_map (fun d : String × Range => hitIn norm (m.body.map (specPAct norm)) (norm d.1))
-    (fun d => TOut.unhit (norm d.1) d.1 d.2) (decls (m.body.map (specPAct norm)))
+  rw [hacts, hcong, this]
+  simp only [trackSpec, unpurgedSpec, byteArrays, purged]
+  have e := filterMap_ite_map (fun d : String × Range => hitIn norm (pacts norm m) (norm d.1))
+    (fun d => TOut.unhit (norm d.1) d.1 d.2) (decls (pacts norm m))
   rw [e, List.map_map]
   rfl
 
@@ -177,7 +180,7 @@ theorem rule_naming (e : Ev) (hu : underscoreFirst e.node.ident = false) : nmOf 
 theorem rule_naming_underscore :
     ¬ ∀ e : Ev, nmOf e = namingSpec e := by
   intro h
-  exact absurd (h ⟨tk "proc_decl" "_run" 1 5 [] [], some rootStub, none, 0, 0⟩) (by decide)
+  exact absurd (h ⟨tk "proc_decl" "_run" 1 5 [] [], some rootStub, none, 0, 0, 0⟩) (by decide)
 
 /-! ## each flagged once, nothing else -/
 
